@@ -439,3 +439,15 @@ impl vstd::std_specs::convert::FromSpecImpl<StdError> for AnyError {
 pub uninterp spec fn spec_mock_env() -> Env;
 #[verifier::external_body]
 pub fn mock_env() -> (r: Env) ensures r == spec_mock_env() { unimplemented!() }
+// the block of that environment (cosmwasm-std 2.2.2 testing/mock.rs: height 12_345, time 1_571_797_419_879_305_533 ns,
+// chain id "cosmos-testnet-14002")   ASSUMED; lets a spelled-out copy of the default block be compared with it
+pub axiom fn axiom_mock_env_block()
+    ensures spec_mock_env().block.height == 12_345, spec_mock_env().block.time.nanos == 1_571_797_419_879_305_533,
+            spec_mock_env().block.chain_id@ == "cosmos-testnet-14002"@;
+impl Timestamp {
+    // cosmwasm-std 2.2.2 timestamp.rs: from_nanos(n) = Timestamp(Uint64::new(n)); from_seconds(s) = Timestamp(Uint64::new(s *
+    // 1_000_000_000)) -- the multiplication panics in debug builds and wraps in release: the contract speaks of the in-range case only   ASSUMED
+    pub fn from_nanos(n: u64) -> (r: Timestamp) ensures r.nanos == n { Timestamp { nanos: n } }
+    #[verifier::external_body]
+    pub fn from_seconds(s: u64) -> (r: Timestamp) ensures s * 1_000_000_000 <= u64::MAX ==> r.nanos == s * 1_000_000_000 { unimplemented!() }
+}
